@@ -47,11 +47,23 @@ def run(ctx):
             continue
         hit = False
         for nid in F.insts_of(n):
-            for m in F.inst_reach([nid], stop=lambda x: F.def_of(x) in read_names):
-                if F.def_of(m) in read_names:
+            # through the functions it calls itself (not through a closure its caller handed in: a generic
+            # `with_check(|| ..)` helper records nothing on its own)
+            seen_, work_ = set(), [nid]
+            while work_:
+                m = work_.pop()
+                if m in seen_ or F.def_of(m) in read_names:
                     continue
+                seen_.add(m)
                 if any(kind == "acquire" and what == "PB" for bb2, kind, what, c2 in F.direct_effects(m)):
                     hit = True
+                for bb2, k2, tgt2, c2 in F.inst_edges(m):
+                    if k2 != "local":
+                        continue
+                    tf = F.fn(F.def_of(tgt2))
+                    if tf is not None and tf.kind == "Closure" and not tf.name.startswith(F.def_of(m) + "::"):
+                        continue        # a closure written elsewhere: it reached this function as an argument
+                    work_.append(tgt2)
         if hit:
             rec_fns.add(n)
     for f in reads:
